@@ -81,6 +81,9 @@ def build(fileseed, rows, eol):
         return it
 
     file_start = (rnd.random() < 0.5)     # the first placement sits at the very start of the file (line 1, offset 0)
+    if not file_start and rnd.random() < 0.5:
+        # multi-byte text earlier in the file (byte offsets and character counts drift apart by dozens)
+        gf.raw("// Überschrift: 日本語のコメント — ÄÖÜäöüß éèêë ñ ç 𝓤𝓷𝓲𝓬𝓸𝓭𝓮 😀😀😀" + eol)
     if not file_start:
         gf.raw("fn generated() {" + eol)
     for ri, row in enumerate(rows):
